@@ -322,6 +322,81 @@ func main() {
 		// Transfers larger than any pooled buffer class, at every residue of the stream offset:
 		// a masking stream may treat big writes/reads differently from small ones (piece-wise
 		// through a fixed scratch buffer) and must still continue the key where the stream is.
+		// "Non-negative stream offset": one mask reader and one mask writer carry a stream past
+		// 2^31 (thorough: past 2^32) bytes in 1 MiB pieces, starting with 1..3 odd bytes so that the
+		// running offset is never a multiple of 4. Every piece is checked at its ends, the pieces
+		// around the 2^31 / 2^32 marks in full.
+		r.Part("E3e-streams-longer-than-2^31-bytes", func(t *explore.T) {
+			key := keys[4]
+			const piece = 1 << 20
+			total := int64(1)<<31 + 3*piece
+			if t.Thorough() {
+				total = int64(1)<<32 + 3*piece
+			}
+			block := fill(piece, 3)
+			for _, which := range []string{"CipherReader", "CipherWriter"} {
+				for _, lead := range []int{3, 1} {
+					which, lead := which, lead
+					t.Do(func() string {
+						return fmt.Sprintf("%s: %d odd bytes, then %d bytes in pieces of 1 MiB, no Reset", which, lead, total)
+					}, func() (fail *explore.Fail) {
+						defer func() {
+							if r := recover(); r != nil {
+								fail = explore.Failf("panic-on-long-stream:"+which, "%v", r)
+							}
+						}()
+						var off int64
+						var got []byte
+						cr := wsutil.NewCipherReader(&repeatSrc{block: block}, key)
+						sink := &lastDst{}
+						cw := wsutil.NewCipherWriter(sink, key)
+						buf := make([]byte, piece)
+						step := func(n int) *explore.Fail {
+							if which == "CipherReader" {
+								k, err := io.ReadFull(cr, buf[:n])
+								if err != nil || k != n {
+									return explore.Failf("long-stream-read", "at offset %d: n=%d err=%v", off, k, err)
+								}
+								got = buf[:n]
+							} else {
+								copy(buf, block[:n])
+								k, err := cw.Write(buf[:n])
+								if err != nil || k != n {
+									return explore.Failf("long-stream-write", "at offset %d: n=%d err=%v", off, k, err)
+								}
+								got = sink.last
+							}
+							full := n < 64 || (off > 1<<31-2*piece && off < 1<<31+2*piece) || off > 1<<32-2*piece
+							check := func(i int) bool { return got[i] == block[i]^key[(off+int64(i))%4] }
+							if len(got) != n {
+								return explore.Failf("long-stream-length:"+which, "at offset %d: %d bytes for %d", off, len(got), n)
+							}
+							for i := 0; i < n; i++ {
+								if !full && i == 64 && n > 128 {
+									i = n - 64
+								}
+								if !check(i) {
+									return explore.Failf("long-stream-byte-wrong:"+which, "stream offset %d: got %#x want %#x", off+int64(i), got[i], block[i]^key[(off+int64(i))%4])
+								}
+							}
+							off += int64(n)
+							return nil
+						}
+						if f := step(lead); f != nil {
+							return f
+						}
+						for off < total {
+							if f := step(piece); f != nil {
+								return f
+							}
+						}
+						return nil
+					})
+				}
+			}
+			t.Outcome("ok")
+		})
+
 		r.Part("E3b-large-transfers-at-every-offset", func(t *explore.T) {
 			key := keys[4]
 			bigs := []int{4096, 4097, 65535, 65536, 65537, 70001, 131072, 200003}
@@ -723,6 +798,24 @@ func main() {
 			t.Outcome("ok")
 		})
 	})
+}
+
+// repeatSrc serves the same block over and over (an endless stream without the memory).
+type repeatSrc struct {
+	block []byte
+}
+
+func (r *repeatSrc) Read(p []byte) (int, error) {
+	// every Read of the harness asks for a prefix of the block
+	return copy(p, r.block), nil
+}
+
+// lastDst keeps only the bytes of the last Write.
+type lastDst struct{ last []byte }
+
+func (d *lastDst) Write(p []byte) (int, error) {
+	d.last = append(d.last[:0], p...)
+	return len(p), nil
 }
 
 func firstDiff(a, b []byte) int {
